@@ -282,6 +282,21 @@ class SymStr:
                 return i
         return -1
 
+    def count(self, sub, *a):
+        if a:
+            raise Unsupported("count with offsets")
+        subc = [ord(x) for x in sub] if isinstance(sub, str) else list(sub.c)
+        if not subc:
+            return len(self.c) + 1
+        n, i = 0, 0
+        while i + len(subc) <= len(self.c):
+            if self._match_at(i, subc):
+                n += 1
+                i += len(subc)
+            else:
+                i += 1
+        return n
+
     def index(self, sub, *a):
         r = self.find(sub, *a)
         if r < 0:
@@ -312,6 +327,13 @@ class SymStr:
 
     def __rmod__(self, o):
         return o % ("<symstr>",)
+
+
+def contains(s, sub):
+    """mode-agnostic `sub in s` as a term (SymBool) or bool"""
+    if isinstance(s, SymStr):
+        return s.contains_term(sub)
+    return sub in s
 
 
 def mk_str(chars):
